@@ -286,9 +286,11 @@ def check_case(name, data, pad, block, ref):
     padded = pad_file(data, pad)
     recs, exc, sv = run(padded, block)
     v = []
-    for m in sv:
-        v.append(('stream-discipline:%s' % m.split(',')[0].split(' at ')[0]
-                  .split(' to ')[0], m))
+    # Stream-discipline observations (backward seeks beyond the last block,
+    # header/content reads not tiling the file) are recorded as notes only:
+    # the property is about the records; a reader that buffers instead of
+    # seeking would be legitimate.
+    notes = len(sv)
     if exc is not None:
         v.append(('raised:%s:%s' % (type(exc).__name__, site_of(exc)),
                   repr(exc)))
@@ -298,7 +300,7 @@ def check_case(name, data, pad, block, ref):
                     if not typed_eq(strip_pad(recs)[i], ref[i])), n)
         v.append(('records-differ', 'first difference at record %d: %r vs %r'
                   % (idx, strip_pad(recs)[idx:idx + 1], ref[idx:idx + 1])))
-    return v, padded
+    return v, (padded, notes)
 
 
 def run_unit(unit, tier):
@@ -323,7 +325,9 @@ def run_unit(unit, tier):
     hdr_lens = None
     for block in blocks:
         for pad in PADS:
-            viols, padded = check_case(name, data, pad, block, ref)
+            viols, (padded, notes) = check_case(name, data, pad, block, ref)
+            if notes:
+                acc.outcome('stream-discipline-note', notes)
             acc.evals += 1
             acc.states += 1
             acc.transitions += 1
